@@ -14,6 +14,10 @@ Socket reader task (`SocketReader::receive_msg`, the body that awaits `read_sock
   T-WIRE        the map the reader iterates/clears is `ConnectionInner.msg_senders`
                 (`init_socket_reader` passes a clone of that Arc, `SocketReader::new` stores it in `senders`,
                 the reader locks `self.senders`)
+  B-NOWAIT      every channel the reader broadcasts into is created (`async_broadcast::broadcast`, in
+                `Connection::new` and `add_match`) with `set_await_active(false)` applied to its receiver on every path:
+                otherwise `broadcast_direct` to a channel that has only inactive receivers would block the reader —
+                and with it the error broadcast — forever
 Later subscriptions:
   A-EMPTY       `Connection::add_match` tests `is_empty()` of the locked `msg_senders` map before creating or
                 activating any receiver; the empty edge returns `Err` only and touches no channel / no
@@ -24,6 +28,11 @@ Pending calls:
                 return `Poll::Ready` without polling again, the latter carrying the stream's error
   P-NONE        `<PendingMethodCall as Future>::poll` turns the `None` of poll_before into `Err(..)`
                 and never fabricates `Pending`
+Streams:
+  M-STREAM      `<MessageStream as Stream>::poll_next` returns the poll of its broadcast receiver unchanged;
+                `<MessageStream as OrderedStream>::poll_next_before` builds `Pending` only under the receiver's
+                `Pending`, maps `Ready(None)` (channel closed by the reader's teardown) to `PollResult::Terminated`
+                only, and `Ready(Some(Err(e)))` to an `Item` carrying `Err(e)`
 End of file:
   E-EOF         default `ReadHalf::receive_message`: after every `recvmsg` the byte count is compared with 0
                 before the next `recvmsg` / before the `Ok` result; the zero edge returns `Err` only
@@ -256,6 +265,33 @@ def check_reader(ctx, f):
     return R
 
 
+def check_nowait(ctx, f):
+    sites = []
+    for b in f.all_bodies("zbus"):
+        for c in mir.calls(b):
+            if c.callee == "async_broadcast::broadcast" and RES_MSG in c.fnargs:
+                sites.append((b, c))
+    ctx.floor("B-NOWAIT", "broadcast channel creations for Result<Message>", len(sites), 3)
+    for b, c in sites:
+        ok_root = b.root in ("zbus::connection::Connection::new", "zbus::connection::Connection::add_match")
+        ctx.ob("B-NOWAIT", "channel-created-in:" + b.root, ok_root,
+               "connection channel" if ok_root else "unexpected creator of a message channel", c.where)
+        der = mir.derives(b, {c.dest[0]}, through_calls=True)
+        sets = []
+        for x in mir.calls(b):
+            if x.is_("set_await_active") and x.callee.startswith("async_broadcast::") and len(x.args) > 1 and \
+                    set(mir.operand_locals(x.args[0])) & der and mir.block_dominates(b, c.b, x.b):
+                k = mir.resolve_const(b, x.args[1])
+                if k is not None and k.get("v") in (False, 0):
+                    sets.append(x)
+        r = cf.reach_e(b, [c.c["t"]], avoid_blocks={x.b for x in sets})
+        leak = r & set(mir.exits(b))
+        ctx.ob("B-NOWAIT", "await_active-disabled:" + b.root, bool(sets) and not leak,
+               "set_await_active(false) follows the channel creation on every path" if sets and not leak else
+               "a message channel is created without set_await_active(false)", c.where)
+
+
+
 def check_add_match(ctx, f):
     A = cf.real_coroutine(ctx, f, "zbus::connection::Connection::add_match",
                           lambda b: any(c.is_("is_empty") or c.callee.startswith("async_broadcast::") for c in mir.calls(b)),
@@ -405,6 +441,87 @@ def check_pending(ctx, f):
     ctx.ob("P-NONE", "none-becomes-err", found, detail, fp.where)
 
 
+MSTREAM = "zbus::message_stream::MessageStream"
+
+
+def check_stream(ctx, f):
+    pn = ctx.one(f.find(name="poll_next", adt=MSTREAM, trait="futures_core::stream::Stream"), "<MessageStream as Stream>::poll_next")
+    rcalls = [c for c in mir.calls(pn) if c.is_("poll_next") and c.callee.startswith("<async_broadcast::Receiver")]
+    ctx.floor("M-STREAM", "receiver polls in MessageStream::poll_next", len(rcalls), 1)
+    der = mir.derives(pn, {c.dest[0] for c in rcalls}, through_calls=False)
+    built = [rv for b, i, pl, rv, ln in mir.assignments(pn) if rv[0] == "agg" and rv[1] == "adt" and rv[2] in (POLL, OPTION)]
+    rets_ok = all(set(mir.operand_locals(op)) & der for b, i, rv, ln in mir.ret_values(pn) for op in mir.rvalue_operands(rv))
+    direct = [c for c in mir.calls(pn) if c.dest[0] == mir.RET]
+    ok = not built and rets_ok and all(c in rcalls for c in direct) and (direct or list(mir.ret_values(pn)))
+    ctx.ob("M-STREAM", "poll_next-forwards-receiver", bool(ok),
+           "MessageStream::poll_next returns the receiver's poll result unchanged" if ok else
+           "MessageStream::poll_next does not simply forward the receiver's poll result", pn.where)
+    for c in rcalls:
+        o = mir.origin_base(pn, c.args[0])
+        fl = []
+        if o[0] == "call" and o[1].args:
+            o2 = mir.origin(pn, o[1].args[0])
+            fl = mir.place_fields(o2[1]) if o2[0] in ("ref", "place") else []
+        ctx.ob("M-STREAM", "polls-msg_receiver", "msg_receiver" in fl, "the polled receiver is inner.msg_receiver", c.where)
+
+    pb = ctx.one(f.find(name="poll_next_before", adt=MSTREAM, trait="ordered_stream::OrderedStream"),
+                 "<MessageStream as OrderedStream>::poll_next_before")
+    polls = [c for c in mir.calls(pb) if c.is_("poll_next") and "Stream" in c.declared + c.callee]
+    ctx.floor("M-STREAM", "polls in MessageStream::poll_next_before", len(polls), 1)
+    roots = {c.dest[0] for c in polls}
+    pend_e, _, _ = cf.variant_edges(pb, f, roots, POLL, "Pending", only_deref=False)
+    for b, i, pl, rv, ln in mir.assignments(pb):
+        if rv[0] == "agg" and rv[1] == "adt" and rv[2] == POLL and rv[3] == "Pending":
+            ok = bool(pend_e) and cf.edges_dominate(pb, pend_e, b)
+            ctx.ob("M-STREAM", "pending-only-when-receiver-pending", ok,
+                   "Poll::Pending is built only under the receiver's Pending" if ok else
+                   "Poll::Pending is returned although the receiver was Ready", "%s:%d" % (pb.file, ln))
+    none_e, err_e = [], []
+    for sb, place, adt, arms, other in cf.discr_switches(pb, f):
+        if place[0] not in roots:
+            continue
+        downs = [p[1] for p in place[1] if isinstance(p, list) and p[0] == "as"]
+        if adt == OPTION and downs == ["Ready"]:
+            if "None" in arms:
+                none_e.append((sb, arms["None"]))
+            elif "Some" in arms:
+                none_e.append((sb, other))
+        if adt == RESULT and downs == ["Ready", "Some"]:
+            if "Err" in arms:
+                err_e.append((sb, arms["Err"]))
+            elif "Ok" in arms:
+                err_e.append((sb, other))
+    ctx.need(none_e, "Ready(None) arm in MessageStream::poll_next_before")
+    ctx.need(err_e, "Ready(Some(Err)) arm in MessageStream::poll_next_before")
+    poll_b = {c.b for c in polls}
+
+    def region_facts(e):
+        r = cf.reach_e(pb, [e[1]])
+        rets = [rv for b, i, rv, ln in mir.ret_values(pb, r)]
+        ready = bool(rets) and all(rv[0] == "agg" and rv[2] == POLL and rv[3] == "Ready" for rv in rets) and \
+            not [c for c in mir.calls(pb) if c.b in r and c.dest[0] == mir.RET]
+        prs = {rv[3] for b, i, pl, rv, ln in mir.assignments(pb) if b in r and rv[0] == "agg" and rv[1] == "adt" and rv[2] == POLLRESULT}
+        return r, ready, prs
+
+    for e in none_e:
+        r, ready, prs = region_facts(e)
+        ok = ready and prs == {"Terminated"} and not (r & poll_b)
+        ctx.ob("M-STREAM", "closed-channel-terminates", ok,
+               "Ready(None) of the receiver becomes Ready(PollResult::Terminated)" if ok else
+               "Ready(None) of the receiver yields %s (ready=%s)" % (sorted(prs), ready), "%s:%d" % (pb.file, mir.term(pb, e[0])[5]))
+    dr = mir.derives(pb, roots, through_calls=False)
+    for e in err_e:
+        r, ready, prs = region_facts(e)
+        errs = [rv for b, i, pl, rv, ln in mir.assignments(pb) if b in r and rv[0] == "agg" and rv[2] == RESULT and rv[3] == "Err"
+                and set(mir.operand_locals(rv[4][0])) & dr]
+        ok = ready and prs == {"Item"} and bool(errs) and not (r & poll_b)
+        ctx.ob("M-STREAM", "error-item-is-yielded", ok,
+               "Ready(Some(Err(e))) becomes an Item carrying Err(e)" if ok else
+               "Ready(Some(Err(e))) yields %s (ready=%s, err passed on=%s)" % (sorted(prs), ready, bool(errs)),
+               "%s:%d" % (pb.file, mir.term(pb, e[0])[5]))
+
+
+
 def check_eof(ctx, f):
     rm = cf.real_coroutine(ctx, f, READHALF + "::receive_message",
                            lambda b: any(c.is_("recvmsg") for c in mir.calls(b)),
@@ -503,7 +620,8 @@ def run(ctx):
         "the loop, precedes every completion of the task, and is followed by no further read. add_match: is_empty() of the "
         "locked msg_senders dominates every channel/subscription operation and its true edge returns Err only. "
         "PendingMethodCall: Pending only under the stream's Pending; Terminated and Err items complete with Ready; None "
-        "becomes Err in Future::poll. receive_message: every recvmsg is followed by a `== 0` test whose zero edge returns Err. "
+        "becomes Err in Future::poll. MessageStream forwards its receiver's poll, maps a closed channel to Terminated and an "
+        "Err item to an Item carrying it. receive_message: every recvmsg is followed by a `== 0` test whose zero edge returns Err. "
         "The reader's own frames hold no panic-capable construct beyond the reviewed u64 sequence increment.")
     ctx.not_decided = ("promptness; behaviour of async-broadcast (closed channel ends receivers) and of the transport; panic "
                        "freedom of the callees of the reader task (message parsing: C12/C14, rule matching: C21); write-side "
@@ -511,7 +629,9 @@ def run(ctx):
     f = ctx.facts("K1")
     cf.check_ext_enums(ctx, f, [RESULT, POLL, OPTION, POLLRESULT])
     check_reader(ctx, f)
+    check_nowait(ctx, f)
     check_add_match(ctx, f)
     check_pending(ctx, f)
+    check_stream(ctx, f)
     check_eof(ctx, f)
     check_panics(ctx, f)
